@@ -8,7 +8,16 @@ A layout (JSON-able) is
   cls    = {"attr","pos","name","desc","xrank","tags","props","links","vis","disabled","ctor_fails","tests","subs"}
   test   = {"attr","pos","name","desc","tags","props","links","vis","disabled",
             "param": None | {"sets": [[[k, v], ...], ...], "naming": None | {"name": [seg], "desc": [seg]}, "style": "dict"|"csv"|"csvtuple"}}
-  vis    = None | "hidden" | True | False        (None: no condition; bool: what visible_if's callable returns)
+  vis    = None | "hidden" | True | False | cond  (None: no condition; bool: what visible_if's callable returns)
+  cond   = {"pv": PV | None, "via": "const"|"env"|"envint"|"attr"|"len"|"count", "key": str, "callable": "lambda"|"obj"|"falsy-obj"}
+           the callable returns the Python value PV, computed at load time: a constant, os.environ.get(KEY) (the harness sets /
+           unsets the variable around the load), int(os.environ.get(KEY, '0')), an attribute of the object the callable
+           receives (function attribute / class attribute / module global), len() of such an attribute, or
+           <name>.count('_') of the item's own Python identifier (then "pv" is None: `cond_pv` computes it from the identifier);
+           "callable": a lambda, a callable instance, or a callable instance that is itself a false value (the input class of the repaired finding D36)
+  PV     = {"t": "none"} | {"t":"bool","v":b} | {"t":"int","v":i} | {"t":"float","k":"fin","milli":m} | {"t":"float","k":"negzero"|"nan"}
+           | {"t":"float","k":"inf","neg":b} | {"t":"str","v":s} | {"t":"list"|"tuple"|"dict","n":n} | {"t":"obj"}
+           | {"t":"objbool","v":b} (instance whose __bool__ returns b) | {"t":"objlen","n":n} (instance with only __len__)
 `pos` is the textual position of the item within its class / module body.
 Ranks are NOT part of the generated layout: `with_ranks` computes what the global counter
 `Metadata._next_rank` (reset to 1 before every case) hands out while the sources are imported.
@@ -34,13 +43,133 @@ def _meta(rng, uniq):
     return {"tags": tags, "props": props, "links": links}
 
 
-def _vis(rng, p_hidden=0.12, p_cond=0.16):
+def _pv(t, **kw):
+    return dict({"t": t}, **kw)
+
+
+# what a visible_if callable may return: values that are false without being False, true without being True
+FALSY_PVS = [_pv("none"), _pv("bool", v=False), _pv("int", v=0), _pv("float", k="fin", milli=0), _pv("float", k="negzero"),
+             _pv("str", v=""), _pv("list", n=0), _pv("tuple", n=0), _pv("dict", n=0), _pv("objbool", v=False), _pv("objlen", n=0)]
+TRUTHY_PVS = [_pv("bool", v=True), _pv("int", v=1), _pv("int", v=-1), _pv("int", v=2), _pv("float", k="fin", milli=2500),
+              _pv("float", k="fin", milli=-500), _pv("float", k="nan"), _pv("float", k="inf", neg=False),
+              _pv("float", k="inf", neg=True), _pv("str", v="x"), _pv("str", v="0"), _pv("str", v="False"), _pv("str", v=" "),
+              _pv("str", v="é"), _pv("list", n=1), _pv("list", n=2), _pv("tuple", n=1), _pv("dict", n=1), _pv("obj"),
+              _pv("objbool", v=True), _pv("objlen", n=3)]
+ENV_STRS = ["", "", "x", "0", "False", " ", "1", "é"]
+VIAS = {"test": ["const", "const", "env", "envint", "attr", "len", "count"],
+        "class": ["const", "const", "env", "envint", "attr", "len", "count"],
+        "module": ["const", "const", "env", "envint", "attr", "len"]}
+
+# defined at the top of every rendered module: instances with their own truth protocol, and a callable instance
+PRELUDE = """import os
+import lemoncheesecake.api as lcc
+
+
+class _VB:
+    def __init__(self, b):
+        self.b = b
+
+    def __bool__(self):
+        return self.b
+
+
+class _VL:
+    def __init__(self, n):
+        self.n = n
+
+    def __len__(self):
+        return self.n
+
+
+class _VC:
+    # a condition that is a callable *instance*; `truth` is its own truth value
+    def __init__(self, truth, fn):
+        self.truth, self.fn = truth, fn
+
+    def __bool__(self):
+        return self.truth
+
+    def __call__(self, obj):
+        return self.fn(obj)
+"""
+
+
+def gen_cond(rng, kind, uniq):
+    """a visible_if condition whose value is computed at load time"""
+    via = rng.choice(VIAS[kind])
+    key = "k%d" % uniq()
+    falsy = rng.random() < 0.5
+    pv = None
+    if via in ("const", "attr"):
+        pv = copy.deepcopy(rng.choice(FALSY_PVS if falsy else TRUTHY_PVS))
+    elif via == "env":
+        pv = _pv("none") if rng.random() < 0.4 else _pv("str", v=rng.choice(ENV_STRS))
+    elif via == "envint":
+        pv = _pv("int", v=0 if falsy else rng.choice([1, 2, -1, 10]))
+    elif via == "len":
+        pv = _pv("int", v=0 if falsy else rng.choice([1, 2, 3]))
+    r = rng.random()
+    call = "lambda" if r < 0.88 else "obj" if r < 0.96 else "falsy-obj"
+    return {"pv": pv, "via": via, "key": key, "callable": call}
+
+
+def _vis(rng, p_hidden=0.12, p_cond=0.16, kind="test", uniq=None):
     r = rng.random()
     if r < p_hidden:
         return "hidden"
     if r < p_hidden + p_cond:
-        return rng.random() < 0.5
+        if uniq is None or rng.random() < 0.25:
+            return rng.random() < 0.5
+        return gen_cond(rng, kind, uniq)
     return None
+
+
+def cond_pv(v, attr):
+    """the Python value (PV) the condition `v` of the item with identifier `attr` returns at load time"""
+    if v is True or v is False:
+        return _pv("bool", v=v)
+    if v["via"] == "count":
+        return _pv("int", v=(attr or "").count("_"))
+    return v["pv"]
+
+
+def _walk_vis(d, out):
+    def cls(c):
+        out.append((c.get("vis"), c["attr"], "class"))
+        for t in c["tests"]:
+            out.append((t.get("vis"), t["attr"], "test"))
+        for x in c["subs"]:
+            cls(x)
+    for m in d["mods"]:
+        if m.get("info"):
+            out.append((m["info"].get("vis"), None, "module"))
+        for t in m["tests"]:
+            out.append((t.get("vis"), t["attr"], "test"))
+        for c in m["classes"]:
+            cls(c)
+    for x in d["dirs"]:
+        _walk_vis(x, out)
+    return out
+
+
+def conditions(layout):
+    """every (vis, identifier, level) of the layout with a visible_if condition"""
+    return [(v, a, k) for v, a, k in _walk_vis(layout, []) if v is not None and v != "hidden"]
+
+
+def env_of(layout):
+    """{variable: text or None (unset)} the conditions of the layout read from the environment"""
+    env = {}
+    for v, attr, _ in conditions(layout):
+        if isinstance(v, dict) and v["via"] in ("env", "envint"):
+            pv = cond_pv(v, attr)
+            name = "LCCV_" + v["key"]
+            if v["via"] == "env":
+                env[name] = None if pv["t"] == "none" else pv["v"]
+            else:
+                # a zero is either "0" or an unset variable (the default of the .get)
+                env[name] = None if pv["v"] == 0 and sum(map(ord, v["key"])) % 2 else str(pv["v"])
+    return env
 
 
 def _disabled(rng):
@@ -82,8 +211,24 @@ def gen_param(rng):
     return {"sets": sets, "naming": naming, "style": style}
 
 
+def _const_cond(pv, call="lambda"):
+    return {"pv": copy.deepcopy(pv), "via": "const", "key": "k0", "callable": call}
+
+
+def _falsy_cond(rng, kind, uniq):
+    """a condition (lambda) returning a false value, by any of the ways a value is computed"""
+    for _ in range(20):
+        c = gen_cond(rng, kind, uniq)
+        c["callable"] = "lambda"
+        if c["via"] == "count":
+            continue
+        if c["pv"] in FALSY_PVS or c["pv"] == _pv("int", v=0):
+            return c
+    return {"pv": _pv("none"), "via": "const", "key": "k%d" % uniq(), "callable": "lambda"}
+
+
 def gen_test(rng, attr, uniq):
-    t = {"attr": attr, "pos": 0, "name": None, "desc": None, "vis": _vis(rng), "disabled": _disabled(rng), "param": None}
+    t = {"attr": attr, "pos": 0, "name": None, "desc": None, "vis": _vis(rng, kind="test", uniq=uniq), "disabled": _disabled(rng), "param": None}
     t.update(_meta(rng, uniq))
     r = rng.random()
     if r < 0.5:
@@ -98,7 +243,7 @@ def gen_test(rng, attr, uniq):
 
 
 def gen_cls(rng, attr, depth, uniq, dunder=True):
-    c = {"attr": attr, "pos": 0, "name": None, "desc": None, "xrank": None, "vis": _vis(rng, 0.1, 0.12),
+    c = {"attr": attr, "pos": 0, "name": None, "desc": None, "xrank": None, "vis": _vis(rng, 0.1, 0.14, kind="class", uniq=uniq),
          "disabled": _disabled(rng), "ctor_fails": False, "tests": [], "subs": []}
     c.update(_meta(rng, uniq))
     if rng.random() < 0.4:
@@ -149,11 +294,11 @@ def gen_module(rng, stem, uniq):
         m["classes"] = [c]
         if rng.random() < 0.3:                        # extra hidden items do not prevent the collapse
             h = gen_cls(rng, "HiddenSide", 1, uniq)
-            h["vis"] = rng.choice(["hidden", False])
+            h["vis"] = rng.choice(["hidden", False, _falsy_cond(rng, "class", uniq)])
             m["classes"].append(h)
         if rng.random() < 0.25:
             t = gen_test(rng, "hidden_fn", uniq)
-            t["vis"] = rng.choice(["hidden", False])
+            t["vis"] = rng.choice(["hidden", False, _falsy_cond(rng, "test", uniq)])
             m["tests"].append(t)
         if kind == "nearcollapse":
             r = rng.random()
@@ -167,6 +312,8 @@ def gen_module(rng, stem, uniq):
                 c["name"] = stem + "_x"
     if kind != "collapse" and rng.random() < 0.35 or (kind == "collapse" and rng.random() < 0.08):
         info = {"name": None, "desc": None, "xrank": None, "vis": rng.choice([None, None, None, True, False])}
+        if info["vis"] is not None and rng.random() < 0.8:
+            info["vis"] = gen_cond(rng, "module", uniq)
         info.update(_meta(rng, uniq))
         if rng.random() < 0.3:
             info["name"] = "modname_%d" % uniq()
@@ -254,7 +401,7 @@ def mutate(rng, layout):
             b["desc"] = _desc_of(a)
         r = rng.random()
         if r < 0.2:
-            rng.choice([a, b])["vis"] = rng.choice(["hidden", False])     # then it is no duplicate for the loader
+            rng.choice([a, b])["vis"] = rng.choice(["hidden", False, _const_cond(rng.choice(FALSY_PVS))])  # then no duplicate for the loader
         elif r < 0.6:
             a["vis"] = b["vis"] = None
         return kind
@@ -270,7 +417,7 @@ def mutate(rng, layout):
             b["desc"] = _desc_of(a)
         r = rng.random()
         if r < 0.2:
-            rng.choice([a, b])["vis"] = rng.choice(["hidden", False])
+            rng.choice([a, b])["vis"] = rng.choice(["hidden", False, _const_cond(rng.choice(FALSY_PVS))])
         elif r < 0.6:
             a["vis"] = b["vis"] = None
         return kind
@@ -432,12 +579,87 @@ def _tmpl_src(segs):
     return out
 
 
-def _vis_deco(v, what):
+def pv_expr(pv):
+    """Python source of an expression evaluating to the value PV (helper classes: PRELUDE)"""
+    t = pv["t"]
+    if t == "none":
+        return "None"
+    if t == "bool":
+        return repr(bool(pv["v"]))
+    if t == "int":
+        return repr(int(pv["v"]))
+    if t == "float":
+        k = pv["k"]
+        if k == "fin":
+            return repr(pv["milli"] / 1000.0)
+        if k == "negzero":
+            return "-0.0"
+        if k == "nan":
+            return "float('nan')"
+        return "float('-inf')" if pv.get("neg") else "float('inf')"
+    if t == "str":
+        return repr(pv["v"])
+    if t == "list":
+        return "[" + ", ".join(["0", "None", "False"][i % 3] for i in range(pv["n"])) + "]"
+    if t == "tuple":
+        return "(" + "".join("%s, " % ["0", "None", "False"][i % 3] for i in range(pv["n"])) + ")"
+    if t == "dict":
+        return "{" + ", ".join("%d: 0" % i for i in range(pv["n"])) + "}"
+    if t == "obj":
+        return "object()"
+    if t == "objbool":
+        return "_VB(%r)" % bool(pv["v"])
+    if t == "objlen":
+        return "_VL(%d)" % pv["n"]
+    raise ValueError(pv)
+
+
+def _cond_body(v, var, kind, attr):
+    """the expression the condition evaluates (with `var` bound to the object it receives)"""
+    if v is True or v is False:
+        return repr(v)
+    via = v["via"]
+    if via == "const":
+        return pv_expr(v["pv"])
+    if via == "env":
+        return "os.environ.get(%r)" % ("LCCV_" + v["key"])
+    if via == "envint":
+        return "int(os.environ.get(%r, '0'))" % ("LCCV_" + v["key"])
+    if via == "attr":
+        return "%s.lccv_%s" % (var, v["key"])
+    if via == "len":
+        return "len(%s.lccv_%s)" % (var, v["key"])
+    if via == "count":
+        return "%s.__name__.count('_')" % (var if kind == "test" else "type(%s)" % var)
+    raise ValueError(via)
+
+
+def cond_src(v, var, kind, attr):
+    """source of the callable handed to visible_if / SUITE['visible_if']"""
+    lam = "lambda %s: %s" % (var, _cond_body(v, var, kind, attr))
+    call = v.get("callable", "lambda") if isinstance(v, dict) else "lambda"
+    if call == "lambda":
+        return lam
+    return "_VC(%r, %s)" % (call != "falsy-obj", lam)
+
+
+def cond_defs(v, target, attr):
+    """assignments that give the object the condition receives the attribute it reads (`target`: prefix of the
+    assignment: '' inside a class body / at module level, '<function name>.' for a test)"""
+    if not isinstance(v, dict) or v["via"] not in ("attr", "len"):
+        return []
+    pv = cond_pv(v, attr)
+    if v["via"] == "attr":
+        return ["%slccv_%s = %s" % (target, v["key"], pv_expr(pv))]
+    return ["%slccv_%s = [%s]" % (target, v["key"], ", ".join("None" for _ in range(pv["v"])))]
+
+
+def _vis_deco(v, what, kind="test", attr=None):
     if v is None:
         return None
     if v == "hidden":
         return "@lcc.hidden()"
-    return "@lcc.visible_if(lambda %s: %r)" % (what, bool(v))
+    return "@lcc.visible_if(%s)" % cond_src(v, what, kind, attr)
 
 
 def _meta_decos(it, rng_bits):
@@ -485,7 +707,7 @@ def _test_src(t, ind, method):
     first = "@lcc.test(%s)" % ", ".join(args)
     bits = sum(ord(ch) for ch in t["attr"]) + t["pos"]
     decos = _meta_decos(t, bits)
-    v = _vis_deco(t.get("vis"), "t")
+    v = _vis_deco(t.get("vis"), "t", "test", t["attr"])
     if v:
         decos.append(v)
     if t.get("param"):
@@ -505,6 +727,7 @@ def _test_src(t, ind, method):
     lines = [ind + d for d in reversed(decos)]
     lines.append(ind + "def %s(%s):" % (t["attr"], sig))
     lines.append(ind + "    pass")
+    lines += [ind + d for d in cond_defs(t.get("vis"), t["attr"] + ".", t["attr"])]
     return lines
 
 
@@ -519,7 +742,7 @@ def _cls_src(c, ind):
     first = "@lcc.suite(%s)" % ", ".join(args)
     bits = sum(ord(ch) for ch in c["attr"]) + c["pos"]
     decos = _meta_decos(c, bits)
-    v = _vis_deco(c.get("vis"), "s")
+    v = _vis_deco(c.get("vis"), "s", "class", c["attr"])
     if v:
         decos.append(v)
     decos.insert(bits % (len(decos) + 1), first)
@@ -527,6 +750,7 @@ def _cls_src(c, ind):
     lines.append(ind + "class %s:" % c["attr"])
     inner = ind + "    "
     lines.append(inner + "some_attribute = 42")
+    lines += [inner + d for d in cond_defs(c.get("vis"), "", c["attr"])]
     if c.get("ctor_fails"):
         lines.append(inner + "def __init__(self):")
         lines.append(inner + "    raise RuntimeError('boom')")
@@ -546,7 +770,7 @@ def _body_src(tests, classes, ind, method):
 
 
 def module_src(m):
-    lines = ["import lemoncheesecake.api as lcc", ""]
+    lines = PRELUDE.split("\n")
     if m.get("broken") == "syntax":
         lines.append("def broken(:")
     info = m.get("info")
@@ -565,8 +789,9 @@ def module_src(m):
         if info.get("xrank") is not None:
             ents.append("'rank': %d" % info["xrank"])
         if info.get("vis") is not None:
-            ents.append("'visible_if': lambda mod: %r" % bool(info["vis"] is True))
+            ents.append("'visible_if': %s" % cond_src(info["vis"], "mod", "module", None))
         lines.append("SUITE = {%s}" % ", ".join(ents))
+        lines += cond_defs(info.get("vis"), "", None)
         lines.append("")
     lines.append("def not_a_test():")
     lines.append("    pass")
